@@ -434,7 +434,7 @@ Proof.
   { intros a Ha. destruct (chain_time sw Hfw K n a Ha) as [->|Hlt]; [split; [intros ->|]; lia|].
     rewrite !Htime in Hlt. split; [intros ->|]; lia. }
   assert (H1 : forall x, In x (chain sw K n) -> trk sw x = Some oldT).
-  { intros x Hx. rewrite (chain_trk sw K n); [now rewrite Htrk|exact Hx].
+  { intros x Hx. rewrite (chain_trk sw K n) with (x := x); [now rewrite Htrk| |exact Hx].
     intros a c Ha Es. destruct (Hnu a Ha) as [Hau _]. rewrite !Htrk. rewrite (Hsucc a Hau) in Es.
     destruct (single_not_divides _ _ _ Es) as [He Hnd]. now apply (wt1 _ Ht0). }
   destruct (do_upd_track_trk sw n T newL b sw' oldT Hdw Hfw Cta H H1) as [Tr Em].
@@ -507,4 +507,435 @@ Proof.
       * apply (Hfr a); [apply Hnodes, Ha|exact E].
       * apply Hnh. now rewrite <- (Hhead_in b Hb Hbc).
     + rewrite (Hout a Hac), (Hout b Hbc) in E. apply (wt2 _ Ht0); auto.
+Qed.
+
+(* ================================================================== *)
+(* 6. UserDeleteEdge keeps W_trk                                        *)
+(* ================================================================== *)
+Theorem ude_trk st u v :
+  W_dict st -> W_forest st -> W_trk st -> trk_bounded st -> trk_act (ft st) = true -> edge st u v ->
+  exists a st', user_delete_edge_core st u v = Ok a st' /\
+    W_trk st' /\ trk_bounded st' /\ (forall m, ~ reach st u m -> trk st' m = trk st m).
+Proof.
+  intros Hd Hf Ht Hb Cta He. unfold user_delete_edge_core. pose proof He as He'. unfold edge in He'. rewrite He'. cbn [negb].
+  destruct (do_del_edge_spec st u v He) as (b1 & s1 & H1 & _ & _ & Hs1 & _). rewrite H1. cbn [bind].
+  destruct (do_del_edge_WS st u v b1 s1 Hd Hf H1) as (Hd1 & Hf1 & He1 & Hn1 & Ha1 & Hr1).
+  assert (gstep st s1) as G1 by (now apply rest_eq_gstep).
+  destruct Hr1 as (_ & Rft & Rbk & _).
+  destruct (wd_edge_nodes _ Hd u v He) as [Nu Nv].
+  assert (Nu1 : is_node s1 u) by (now apply (gstep_is_node _ _ _ G1)).
+  assert (Nv1 : is_node s1 v) by (now apply (gstep_is_node _ _ _ G1)).
+  assert (Hlen : length (successors s1 u) = (length (successors st u) - 1)%nat).
+  { rewrite Hs1, Z.eqb_refl. apply filter_remove_length; [apply (wd_adj_nodup _ Hd)|now apply edge_successors]. }
+  assert (Hs1u : successors s1 u = filter (fun x => negb (v =? x)) (successors st u)) by (now rewrite Hs1, Z.eqb_refl).
+  assert (Hs1x : forall x, x <> u -> successors s1 x = successors st x).
+  { intros x Hx. rewrite Hs1. destruct (Z.eqb_spec x u); [contradiction|reflexivity]. }
+  assert (Cta1 : trk_act (ft s1) = true) by (now rewrite Rft).
+  assert (Huv : time_of st u < time_of st v) by (now apply (wf_time _ Hf)).
+  assert (Hsub : forall a c, edge s1 a c -> edge st a c) by (intros a c Hac; now apply He1).
+  assert (Hoff : forall p a, p <> u -> edge st p a -> edge s1 p a).
+  { intros p a Hp Hpa. apply He1. split; [exact Hpa|]. intros [? _]. contradiction. }
+  assert (Htime1 : forall m, time_of s1 m = time_of st m) by (intros m; apply (gstep_time _ _ _ G1)).
+  set (K := length (nodes (g s1))).
+  pose proof (wf_out _ Hf u) as Hout.
+  unfold out_degree. destruct (successors s1 u) as [|sib rest] eqn:Es.
+  - (* plain edge: the chain below v gets the fresh id *)
+    cbn [length Z.of_nat Z.eqb].
+    destruct (upd_track_step s1 v (next_trk s1) (Some (next_lin s1)) Hd1 Hf1 Nv1) as (b2 & s2 & H2 & Hd2 & Hf2 & G2 & E2 & S2).
+    rewrite H2. cbn [bind]. eexists _, s2. split; [reflexivity|].
+    destruct (relabel_walk st s1 u v (next_trk s1) _ b2 s2 Hd Hf Ht Hd1 Hf1 Hn1 Ha1 Hs1x Nv Huv Cta1 H2) as [Tr Em].
+    fold K in Tr.
+    assert (Hch_reach : forall m, In m (chain s1 K v) -> reach st u m).
+    { intros m Hm. eapply rt_trans; [apply rt_step; exact He|]. apply (reach_mono s1 st Hsub). now apply chain_reach with (k := K). }
+    assert (Hnext : next_trk s1 = max_trk (bk st) + 1) by (unfold next_trk; now rewrite Rbk).
+    split; [|split].
+    + apply (W_trk_relabel st s1 s2 u v (next_trk s1) K Ht Hf1).
+      * intros m. rewrite (gstep_is_node _ _ _ G2). apply (gstep_is_node _ _ _ G1).
+      * exact Hs1x.
+      * intros a Ha. rewrite S2. now apply Hs1x.
+      * apply (chain_complete s1 v Hd1 Hf1 Nv1).
+      * intros Hin. destruct (chain_time s1 Hf1 K v u Hin) as [E|Hlt]; [subst; lia|rewrite !Htime1 in Hlt; lia].
+      * intros a Hav. apply (wf_in _ Hf a u v); [now apply Hsub|exact He].
+      * exact Tr.
+      * intros c Hc. exfalso. apply E2, edge_successors in Hc. rewrite Es in Hc. destruct Hc.
+      * left. intros m Nm Em'. apply Hb in Em'; [lia|exact Nm].
+      * intros p a Hpa Hna Hha. destruct (Z.eq_dec p u) as [->|Hpu].
+        -- exfalso. apply Hna. destruct (Z.eq_dec a v) as [->|Hav]; [apply chain_self|exfalso].
+           assert (In a (filter (fun x => negb (v =? x)) (successors st u))) as Hin.
+           { apply filter_In. split; [now apply edge_successors|]. destruct (Z.eqb_spec v a); [congruence|reflexivity]. }
+           rewrite <- Hs1u in Hin. destruct Hin.
+        -- destruct Hha as [_ P]. specialize (P p (proj2 (E2 p a) (Hoff p a Hpu Hpa))).
+           unfold divides in *. now rewrite S2, (Hs1x p Hpu) in P.
+    + intros m X Nm Hm. rewrite Tr in Hm. rewrite Em, Rbk.
+      destruct (memz m (chain s1 K v)); [injection Hm as <-; lia|].
+      assert (X <= max_trk (bk st)); [|lia]. apply (Hb m X); [|exact Hm].
+      apply (gstep_is_node _ _ _ G1). now apply (gstep_is_node _ _ _ G2).
+    + intros m Hm. rewrite Tr. destruct (memz m (chain s1 K v)) eqn:Em'; [|reflexivity].
+      exfalso. apply Hm, Hch_reach. now apply memz_In.
+  - destruct rest as [|z rest']; [|exfalso; cbn [length] in Hlen; lia].
+    (* division edge: the sibling's chain joins the parent's track; v keeps its id *)
+    cbn [length]. change (Z.of_nat 1 =? 0) with false. change (Z.of_nat 1 =? 1) with true. cbv iota.
+    destruct (wd_track _ Hd1 u Nu1) as [t Htk]. apply zattr_attr in Htk. rewrite Htk.
+    assert (Esib1 : edge s1 u sib) by (apply edge_successors; rewrite Es; now left).
+    assert (Nsib1 : is_node s1 sib) by (apply (wd_edge_nodes _ Hd1 u sib Esib1)).
+    destruct (upd_track_step s1 sib t None Hd1 Hf1 Nsib1) as (b2 & s2 & H2 & Hd2 & Hf2 & G2 & E2 & S2).
+    rewrite H2. cbn [bind].
+    assert (Nv2 : is_node s2 v) by (now apply (gstep_is_node _ _ _ G2)).
+    destruct (wd_track _ Hd2 v Nv2) as [tv Htv]. apply zattr_attr in Htv. rewrite Htv.
+    destruct (upd_track_step s2 v tv (Some (next_lin s2)) Hd2 Hf2 Nv2) as (b3 & s3 & H3 & Hd3 & Hf3 & G3 & E3 & S3).
+    rewrite H3. cbn [bind]. eexists _, s3. split; [reflexivity|].
+    pose proof (Hsub _ _ Esib1) as Esib.
+    assert (Nsib : is_node st sib) by (apply (wd_edge_nodes _ Hd u sib Esib)).
+    assert (Husib : time_of st u < time_of st sib) by (now apply (wf_time _ Hf)).
+    destruct (relabel_walk st s1 u sib t None b2 s2 Hd Hf Ht Hd1 Hf1 Hn1 Ha1 Hs1x Nsib Husib Cta1 H2) as [Tr Em].
+    fold K in Tr.
+    assert (Hch_reach : forall m, In m (chain s1 K sib) -> reach st u m).
+    { intros m Hm. eapply rt_trans; [apply rt_step; exact Esib|]. apply (reach_mono s1 st Hsub). now apply chain_reach with (k := K). }
+    assert (Hu_out : ~ In u (chain s1 K sib)).
+    { intros Hin. destruct (chain_time s1 Hf1 K sib u Hin) as [E|Hlt]; [subst; lia|rewrite !Htime1 in Hlt; lia]. }
+    assert (Htu : trk st u = Some t) by (unfold trk, zattr; rewrite <- Ha1; exact Htk).
+    assert (Wt2 : W_trk s2).
+    { apply (W_trk_relabel st s1 s2 u sib t K Ht Hf1).
+      * intros m. rewrite (gstep_is_node _ _ _ G2). apply (gstep_is_node _ _ _ G1).
+      * exact Hs1x.
+      * intros a Ha. rewrite S2. now apply Hs1x.
+      * apply (chain_complete s1 sib Hd1 Hf1 Nsib1).
+      * exact Hu_out.
+      * intros a Hav. apply (wf_in _ Hf a u sib); [now apply Hsub|exact Esib].
+      * exact Tr.
+      * intros c Hc _. apply E2, edge_successors in Hc. rewrite Es in Hc. destruct Hc as [<-|[]].
+        rewrite !Tr. apply memz_false in Hu_out. rewrite Hu_out.
+        pose proof (chain_self s1 K sib) as Hself. apply memz_In in Hself. now rewrite Hself.
+      * right. intros [_ P]. specialize (P u (proj2 (E2 u sib) Esib1)). unfold divides in P. rewrite S2, Es in P. cbn in P. lia.
+      * intros p a Hpa Hna Hha. destruct (Z.eq_dec p u) as [->|Hpu].
+        -- unfold divides. cbn [length] in Hlen. lia.
+        -- destruct Hha as [_ P]. specialize (P p (proj2 (E2 p a) (Hoff p a Hpu Hpa))).
+           unfold divides in *. now rewrite S2, (Hs1x p Hpu) in P. }
+    assert (Cta2 : trk_act (ft s2) = true) by (rewrite (gs_ft _ _ G2); exact Cta1).
+    destruct (do_upd_track_same_id s2 v tv _ b3 s3 Hd2 Cta2 H3 Htv) as [Tr3 Em3].
+    split; [|split].
+    + apply (W_trk_ext s2 s3); [intros m; apply (gstep_is_node _ _ _ G3)|exact S3|exact Tr3|exact Wt2].
+    + intros m X Nm Hm. rewrite Tr3, Tr in Hm. rewrite Em3, Em, Rbk.
+      destruct (memz m (chain s1 K sib)); [injection Hm as <-; lia|].
+      assert (X <= max_trk (bk st)); [|lia]. apply (Hb m X); [|exact Hm].
+      apply (gstep_is_node _ _ _ G1). apply (gstep_is_node _ _ _ G2). now apply (gstep_is_node _ _ _ G3).
+    + intros m Hm. rewrite Tr3, Tr. destruct (memz m (chain s1 K sib)) eqn:Em'; [|reflexivity].
+      exfalso. apply Hm, Hch_reach. now apply memz_In.
+Qed.
+
+(* ================================================================== *)
+(* 7. UserAddEdge keeps W_trk                                           *)
+(* ================================================================== *)
+(* the part of UserAddEdge after the (possibly forced) removal of the merge edge *)
+Definition uae_tail (s : state) (u v : Z) (pre : list action) : res action :=
+  let od := out_degree s u in
+  do acts, s <- (if od =? 0 then
+                   match zattr s u KTrack with
+                   | Some t => do b, s <- do_upd_track s v t (zattr s u KLin); Ok (pre ++ [ABasic b]) s
+                   | None => Err EKey s end
+                 else if od =? 1 then
+                   match successors s u with
+                   | c :: _ =>
+                       do b, s <- do_upd_track s c (next_trk s) None;
+                       match zattr s v KTrack with
+                       | Some tv => do b2, s <- do_upd_track s v tv (zattr s u KLin); Ok (pre ++ [ABasic b; ABasic b2]) s
+                       | None => Err EKey s end
+                   | [] => Err EKey s end
+                 else Err (EInvalid false) s);
+  do b', s <- do_add_edge s u v [];
+  Ok (AGroup (acts ++ [ABasic b'])) s.
+
+Lemma uae_core_unfold st u v force :
+  user_add_edge_core st u v force =
+  if negb (has_node st u) then Err (EInvalid false) st else
+  if negb (has_node st v) then Err (EInvalid false) st else
+  if time_of st u >=? time_of st v then Err (EInvalid false) st else
+  if (out_degree st u - (if has_edge st u v then 1 else 0)) >? 1 then Err (EInvalid false) st else
+  do pre, s <- (if in_degree st v >? 0 then
+                  if negb force then Err (EInvalid true) st
+                  else match predecessors st v with
+                       | p :: _ => do a, s <- user_delete_edge st p v false; Ok [a] s
+                       | [] => Ok [] st end
+                else Ok [] st);
+  uae_tail s u v pre.
+Proof. reflexivity. Qed.
+
+Lemma uae_tail_trk s u v pre :
+  W_dict s -> W_forest s -> W_trk s -> trk_bounded s -> trk_act (ft s) = true ->
+  is_node s u -> is_node s v -> time_of s u < time_of s v ->
+  (forall p, ~ edge s p v) -> (length (successors s u) <= 1)%nat ->
+  exists a s', uae_tail s u v pre = Ok a s' /\
+    W_dict s' /\ W_forest s' /\ W_trk s' /\ trk_bounded s' /\
+    (forall m, ~ reach s u m -> ~ reach s v m -> trk s' m = trk s m) /\
+    (forall x y, edge s' x y <-> edge s x y \/ (x = u /\ y = v)).
+Proof.
+  intros Hds Hfs Hts Hbs Cta Nu Nv Hts' Hnop Hod'. unfold uae_tail.
+  set (K := length (nodes (g s))).
+  assert (Hrefl : forall a, a <> u -> successors s a = successors s a) by reflexivity.
+  unfold out_degree. destruct (successors s u) as [|c rest] eqn:Esu.
+  2: destruct rest as [|c2 rest']; [|exfalso; cbn [length] in Hod'; lia].
+  all: cbn [length]; try change (Z.of_nat 0 =? 0) with true; try change (Z.of_nat 1 =? 0) with false; try change (Z.of_nat 1 =? 1) with true; cbv iota.
+  all: destruct (wd_track _ Hds u Nu) as [t Htk]; apply zattr_attr in Htk.
+  - (* join: the chain below v adopts the track of u *)
+    rewrite Htk.
+    destruct (upd_track_step s v t (zattr s u KLin) Hds Hfs Nv) as (b & s2 & H2 & Hd2 & Hf2 & G2 & E2 & S2).
+    rewrite H2. cbn [bind].
+    assert (Nu2 : is_node s2 u) by (now apply (gstep_is_node _ _ _ G2)).
+    assert (Nv2 : is_node s2 v) by (now apply (gstep_is_node _ _ _ G2)).
+    destruct (do_add_edge_spec s2 u v [] Nu2 Nv2) as (b' & s3 & H3 & _ & _ & _ & Hs3 & _). rewrite H3. cbn [bind].
+    destruct (do_add_edge_WS s2 u v [] b' s3 Hd2 Hf2 H3) as (Hd3 & Hf3 & E3 & N3 & A3 & R3).
+    { rewrite !(gstep_time _ _ _ G2). exact Hts'. }
+    { intros q Hq. apply E2 in Hq. exfalso. now apply (Hnop q). }
+    { right. rewrite S2, Esu. cbn. lia. }
+    destruct R3 as (_ & _ & Rbk & _).
+    assert (Hne : has_edge s2 u v = false).
+    { destruct (has_edge s2 u v) eqn:E; [|reflexivity]. exfalso. apply (Hnop u). now apply E2. }
+    assert (Hs3u : successors s3 u = [v]) by (now rewrite Hs3, Z.eqb_refl, Hne, S2, Esu).
+    assert (Hs3x : forall a, a <> u -> successors s3 a = successors s a).
+    { intros a Ha. rewrite Hs3. destruct (Z.eqb_spec a u); [contradiction|apply S2]. }
+    destruct (relabel_walk s s u v t _ b s2 Hds Hfs Hts Hds Hfs eq_refl (fun _ _ => eq_refl) Hrefl Nv Hts' Cta H2) as [Tr Em].
+    fold K in Tr.
+    assert (Tr3 : forall m, trk s3 m = if memz m (chain s K v) then Some t else trk s m).
+    { intros m. unfold trk at 1. unfold zattr. rewrite A3. apply Tr. }
+    assert (Hu_out : ~ In u (chain s K v)).
+    { intros Hin. destruct (chain_time s Hfs K v u Hin) as [E|Hlt]; [subst; lia|lia]. }
+    assert (E3uv : edge s3 u v) by (apply E3; now right).
+    eexists _, s3. split; [reflexivity|]. split; [exact Hd3|]. split; [exact Hf3|]. split; [|split; [|split]].
+    + apply (W_trk_relabel s s s3 u v t K Hts Hfs).
+      * intros m. unfold is_node. rewrite N3. apply (gstep_is_node _ _ _ G2).
+      * exact Hrefl.
+      * exact Hs3x.
+      * apply (chain_complete s v Hds Hfs Nv).
+      * exact Hu_out.
+      * intros a Hav. exfalso. now apply (Hnop a).
+      * exact Tr3.
+      * intros c Hc _. apply edge_successors in Hc. rewrite Hs3u in Hc. destruct Hc as [<-|[]].
+        rewrite !Tr3. apply memz_false in Hu_out. rewrite Hu_out.
+        pose proof (chain_self s K v) as Hself. apply memz_In in Hself. now rewrite Hself.
+      * right. intros [_ P]. specialize (P u E3uv). unfold divides in P. rewrite Hs3u in P. cbn in P. lia.
+      * intros p a Hpa Hna Hha.
+        assert (p <> u) as Hpu by (intros ->; apply edge_successors in Hpa; rewrite Esu in Hpa; destruct Hpa).
+        destruct Hha as [_ P]. specialize (P p). unfold divides in *. rewrite (Hs3x p Hpu) in P. apply P.
+        apply E3. left. now apply E2.
+    + intros m X Nm Hm. rewrite Tr3 in Hm. rewrite Rbk, Em.
+      destruct (memz m (chain s K v)); [injection Hm as <-; lia|].
+      assert (X <= max_trk (bk s)); [|lia]. apply (Hbs m X); [|exact Hm].
+      apply (gstep_is_node _ _ _ G2). unfold is_node. now rewrite <- N3.
+    + intros m _ Hm. rewrite Tr3. destruct (memz m (chain s K v)) eqn:Em'; [|reflexivity].
+      exfalso. apply Hm. apply chain_reach with (k := K). now apply memz_In.
+    + intros x y. rewrite E3, E2. tauto.
+  - (* division: the chain below the existing child gets a fresh id; v keeps its id *)
+    assert (Euc : edge s u c) by (apply edge_successors; rewrite Esu; now left).
+    assert (Nc : is_node s c) by (apply (wd_edge_nodes _ Hds u c Euc)).
+    destruct (upd_track_step s c (next_trk s) None Hds Hfs Nc) as (b & s2 & H2 & Hd2 & Hf2 & G2 & E2 & S2).
+    rewrite H2. cbn [bind].
+    assert (Nu2 : is_node s2 u) by (now apply (gstep_is_node _ _ _ G2)).
+    assert (Nv2 : is_node s2 v) by (now apply (gstep_is_node _ _ _ G2)).
+    destruct (wd_track _ Hd2 v Nv2) as [tv Htv]. apply zattr_attr in Htv. rewrite Htv.
+    destruct (upd_track_step s2 v tv (zattr s2 u KLin) Hd2 Hf2 Nv2) as (b2 & s3 & H3 & Hd3 & Hf3 & G3 & E3 & S3).
+    rewrite H3. cbn [bind].
+    assert (Nu3 : is_node s3 u) by (now apply (gstep_is_node _ _ _ G3)).
+    assert (Nv3 : is_node s3 v) by (now apply (gstep_is_node _ _ _ G3)).
+    destruct (do_add_edge_spec s3 u v [] Nu3 Nv3) as (b' & s4 & H4 & _ & _ & _ & Hs4 & _). rewrite H4. cbn [bind].
+    destruct (do_add_edge_WS s3 u v [] b' s4 Hd3 Hf3 H4) as (Hd4 & Hf4 & E4 & N4 & A4 & R4).
+    { rewrite !(gstep_time _ _ _ G3), !(gstep_time _ _ _ G2). exact Hts'. }
+    { intros q Hq. apply E3, E2 in Hq. exfalso. now apply (Hnop q). }
+    { right. rewrite S3, S2, Esu. cbn. lia. }
+    destruct R4 as (_ & _ & Rbk & _).
+    assert (Hne : has_edge s3 u v = false).
+    { destruct (has_edge s3 u v) eqn:E; [|reflexivity]. exfalso. apply (Hnop u). now apply E2, E3. }
+    assert (Hs4u : successors s4 u = [c; v]) by (now rewrite Hs4, Z.eqb_refl, Hne, S3, S2, Esu).
+    assert (Hs4x : forall a, a <> u -> successors s4 a = successors s a).
+    { intros a Ha. rewrite Hs4. destruct (Z.eqb_spec a u); [contradiction|]. now rewrite S3, S2. }
+    assert (Huc : time_of s u < time_of s c) by (now apply (wf_time _ Hfs)).
+    destruct (relabel_walk s s u c (next_trk s) None b s2 Hds Hfs Hts Hds Hfs eq_refl (fun _ _ => eq_refl) Hrefl Nc Huc Cta H2) as [Tr Em].
+    fold K in Tr.
+    assert (Cta2 : trk_act (ft s2) = true) by (rewrite (gs_ft _ _ G2); exact Cta).
+    destruct (do_upd_track_same_id s2 v tv _ b2 s3 Hd2 Cta2 H3 Htv) as [Tr3 Em3].
+    assert (Tr4 : forall m, trk s4 m = if memz m (chain s K c) then Some (next_trk s) else trk s m).
+    { intros m. unfold trk at 1. unfold zattr. rewrite A4. change (trk s3 m = if memz m (chain s K c) then Some (next_trk s) else trk s m).
+      rewrite Tr3. apply Tr. }
+    assert (Hu_out : ~ In u (chain s K c)).
+    { intros Hin. destruct (chain_time s Hfs K c u Hin) as [E|Hlt]; [subst; lia|lia]. }
+    eexists _, s4. split; [reflexivity|]. split; [exact Hd4|]. split; [exact Hf4|]. split; [|split; [|split]].
+    + apply (W_trk_relabel s s s4 u c (next_trk s) K Hts Hfs).
+      * intros m. unfold is_node. rewrite N4. rewrite <- (gstep_is_node _ _ m G2). apply (gstep_is_node _ _ _ G3).
+      * exact Hrefl.
+      * exact Hs4x.
+      * apply (chain_complete s c Hds Hfs Nc).
+      * exact Hu_out.
+      * intros a Hac. apply (wf_in _ Hfs a u c Hac Euc).
+      * exact Tr4.
+      * intros x _ Hnd. exfalso. apply Hnd. unfold divides. rewrite Hs4u. cbn. lia.
+      * left. apply (trk_bounded_fresh s Hbs).
+      * intros p a Hpa Hna Hha.
+        assert (p <> u) as Hpu.
+        { intros ->. apply edge_successors in Hpa. rewrite Esu in Hpa. destruct Hpa as [<-|[]]. apply Hna, chain_self. }
+        destruct Hha as [_ P]. specialize (P p). unfold divides in *. rewrite (Hs4x p Hpu) in P. apply P.
+        apply E4. left. now apply E3, E2.
+    + intros m X Nm Hm. rewrite Tr4 in Hm. rewrite Rbk, Em3, Em.
+      destruct (memz m (chain s K c)); [injection Hm as <-; lia|].
+      assert (X <= max_trk (bk s)); [|lia]. apply (Hbs m X); [|exact Hm].
+      apply (gstep_is_node _ _ _ G2). apply (gstep_is_node _ _ _ G3). unfold is_node. now rewrite <- N4.
+    + intros m Hm _. rewrite Tr4. destruct (memz m (chain s K c)) eqn:Em'; [|reflexivity].
+      exfalso. apply Hm. eapply rt_trans; [apply rt_step; exact Euc|]. apply chain_reach with (k := K). now apply memz_In.
+    + intros x y. rewrite E4, E3, E2. tauto.
+Qed.
+
+Theorem uae_trk st u v force a st' :
+  W_dict st -> W_forest st -> W_trk st -> trk_bounded st -> trk_act (ft st) = true ->
+  user_add_edge_core st u v force = Ok a st' ->
+  W_dict st' /\ W_forest st' /\ W_trk st' /\ trk_bounded st' /\
+  (forall m, ~ reach st u m -> ~ reach st v m -> (forall p, edge st p v -> ~ reach st p m) -> trk st' m = trk st m) /\
+  (forall x y, edge st' x y <-> (edge st x y /\ y <> v) \/ (x = u /\ y = v)).
+Proof.
+  intros Hd Hf Ht Hb Cta H. rewrite uae_core_unfold in H.
+  destruct (has_node st u) eqn:Eu; cbn [negb] in H; [|discriminate].
+  destruct (has_node st v) eqn:Ev; cbn [negb] in H; [|discriminate].
+  destruct (time_of st u >=? time_of st v) eqn:Et; [discriminate|].
+  destruct (out_degree st u - (if has_edge st u v then 1 else 0) >? 1) eqn:Eo; [discriminate|].
+  apply has_node_is_node in Eu. apply has_node_is_node in Ev.
+  assert (Htm : time_of st u < time_of st v) by (rewrite Z.geb_leb in Et; apply Z.leb_gt in Et; lia).
+  assert (Ho : out_degree st u - (if has_edge st u v then 1 else 0) <= 1) by (rewrite Z.gtb_ltb in Eo; apply Z.ltb_ge in Eo; lia).
+  destruct (in_degree st v >? 0) eqn:Ei.
+  - (* v has a parent: forced removal of the merge edge first *)
+    destruct force; cbn [negb] in H; [|discriminate].
+    apply in_degree_pos in Ei. destruct Ei as [p0 Hp0].
+    destruct (predecessors st v) as [|p r] eqn:Ep; [destruct Hp0|].
+    assert (Hpv : is_node st p /\ edge st p v) by (apply in_predecessors; rewrite Ep; now left).
+    destruct Hpv as [Np Epv].
+    destruct (ude_core_spec st p v Hd Hf) as [_ Hy]. destruct (Hy Epv) as (a0 & s & Hude & Hds & Hfs & Gs & Es & Sx & Sp).
+    destruct (ude_trk st p v Hd Hf Ht Hb Cta Epv) as (a0' & s0' & Hude' & Wts & Hbs & Frs).
+    rewrite Hude in Hude'. injection Hude' as <- <-.
+    unfold user_delete_edge, top_wrap in H. rewrite Hude in H. cbn [bind] in H.
+    assert (Eonly : forall x y, edge s x y <-> edge st x y /\ y <> v).
+    { intros x y. rewrite Es. split.
+      - intros [H1 H2]. split; [exact H1|]. intros ->. apply H2. split; [|reflexivity]. apply (wf_in _ Hf x p v H1 Epv).
+      - intros [H1 H2]. split; [exact H1|]. intros [_ ->]. contradiction. }
+    assert (Hod : (length (successors s u) <= 1)%nat).
+    { unfold out_degree in Ho. destruct (Z.eq_dec u p) as [->|Hup].
+      - rewrite Sp. rewrite filter_remove_length; [|apply (wd_adj_nodup _ Hd)|now apply edge_successors].
+        unfold edge in Epv. rewrite Epv in Ho. lia.
+      - rewrite (Sx u Hup). destruct (has_edge st u v) eqn:Euv; [|lia].
+        exfalso. apply Hup. apply (wf_in _ Hf u p v); [exact Euv|exact Epv]. }
+    destruct (uae_tail_trk s u v [a0] Hds Hfs Wts Hbs) as (a1 & s1 & Htail & Hd1 & Hf1 & Wt1 & Hb1 & Fr1 & E1).
+    { rewrite (gs_ft _ _ Gs). exact Cta. }
+    { now apply (gstep_is_node _ _ _ Gs). }
+    { now apply (gstep_is_node _ _ _ Gs). }
+    { rewrite !(gstep_time _ _ _ Gs). exact Htm. }
+    { intros q Hq. apply Eonly in Hq. destruct Hq as [_ Hq]. now apply Hq. }
+    { exact Hod. }
+    rewrite Htail in H. injection H as <- <-.
+    assert (Hsub : forall x y, edge s x y -> edge st x y) by (intros x y Hxy; now apply Eonly).
+    split; [exact Hd1|]. split; [exact Hf1|]. split; [exact Wt1|]. split; [exact Hb1|]. split.
+    + intros m Hu Hv Hp. rewrite Fr1.
+      * apply Frs. now apply Hp.
+      * intros R. apply Hu. now apply (reach_mono s st Hsub).
+      * intros R. apply Hv. now apply (reach_mono s st Hsub).
+    + intros x y. rewrite E1, Eonly. tauto.
+  - (* v has no parent *)
+    cbn [bind] in H.
+    assert (Hnop : forall p, ~ edge st p v).
+    { intros p Hp. assert (In p (predecessors st v)) as Hin by (apply in_predecessors; split; [apply (wd_edge_nodes _ Hd p v Hp)|exact Hp]).
+      assert (in_degree st v >? 0 = true) by (apply in_degree_pos; eauto). congruence. }
+    assert (Hod : (length (successors st u) <= 1)%nat).
+    { unfold out_degree in Ho. destruct (has_edge st u v) eqn:E; [exfalso; now apply (Hnop u)|lia]. }
+    destruct (uae_tail_trk st u v [] Hd Hf Ht Hb Cta Eu Ev Htm Hnop Hod) as (a1 & s1 & Htail & Hd1 & Hf1 & Wt1 & Hb1 & Fr1 & E1).
+    rewrite Htail in H. injection H as <- <-.
+    split; [exact Hd1|]. split; [exact Hf1|]. split; [exact Wt1|]. split; [exact Hb1|]. split.
+    + intros m Hu Hv _. now apply Fr1.
+    + intros x y. rewrite E1. split; [intros [Hxy|Hxy]; [left; split; [exact Hxy|intros ->; now apply (Hnop x)]|now right]|tauto].
+Qed.
+
+(* ================================================================== *)
+(* 8. the user-facing actions (with the history / signal tail) and the *)
+(*    frame clause in terms of weakly connected components             *)
+(* ================================================================== *)
+Lemma finish_top_g s a p : g (finish_top s a p) = g s /\ bk (finish_top s a p) = bk s.
+Proof. unfold finish_top, hist_add. destruct (redo_stack s); auto. Qed.
+
+Lemma trk_bounded_same s s' : g s' = g s -> bk s' = bk s -> trk_bounded s -> trk_bounded s'.
+Proof.
+  intros Eg Eb H n T Hn Htk. rewrite Eb. apply (H n T).
+  - unfold is_node, node_ids in *. now rewrite <- Eg.
+  - unfold trk, zattr in *. now rewrite <- (same_g_attr _ _ Eg).
+Qed.
+
+Lemma top_wrap_inv top p r a st' : top_wrap top p r = Ok a st' ->
+  exists s, r = Ok a s /\ g st' = g s /\ bk st' = bk s.
+Proof.
+  unfold top_wrap. destruct r as [a0 s|e s]; [|discriminate]. intros H. injection H as <- <-.
+  exists s. split; [reflexivity|]. destruct top; [apply finish_top_g|auto].
+Qed.
+
+Lemma reach_wconn st a b : reach st a b -> wconn st a b.
+Proof. intros R. induction R; [now apply rst_step|apply rst_refl|eapply rst_trans; eauto]. Qed.
+
+Lemma same_g_trk s s' : g s' = g s -> forall m, trk s' m = trk s m.
+Proof. intros E m. unfold trk, zattr. now rewrite (same_g_attr _ _ E). Qed.
+
+Lemma same_g_edge s s' : g s' = g s -> forall a c, edge s' a c <-> edge s a c.
+Proof. intros E a c. unfold edge, has_edge, adj. now rewrite E. Qed.
+
+Theorem user_delete_edge_trk st u v top a st' :
+  W_dict st -> W_forest st -> W_trk st -> trk_bounded st -> trk_act (ft st) = true ->
+  user_delete_edge st u v top = Ok a st' ->
+  W_trk st' /\ trk_bounded st' /\
+  (forall m, ~ wconn st u m -> trk st' m = trk st m) /\
+  (forall x y, edge st' x y <-> edge st x y /\ ~ (x = u /\ y = v)).
+Proof.
+  intros Hd Hf Ht Hb Cta H. unfold user_delete_edge in H.
+  destruct (top_wrap_inv _ _ _ _ _ H) as (s & Hc & Eg & Eb).
+  destruct (has_edge st u v) eqn:Ee.
+  - destruct (ude_trk st u v Hd Hf Ht Hb Cta Ee) as (a' & s' & Hc' & Wt & Hbs & Fr).
+    destruct (ude_core_spec st u v Hd Hf) as [_ Hy]. destruct (Hy Ee) as (a2 & s2 & Hc2 & _ & _ & _ & Es & _).
+    rewrite Hc in Hc', Hc2. injection Hc' as <- <-. injection Hc2 as _ <-.
+    split; [now apply (W_trk_same_g s st')|]. split; [now apply (trk_bounded_same s st')|]. split.
+    + intros m Hm. rewrite (same_g_trk _ _ Eg). apply Fr. intros R. apply Hm. now apply reach_wconn.
+    + intros x y. rewrite (same_g_edge _ _ Eg). apply Es.
+  - destruct (ude_core_spec st u v Hd Hf) as [Hn _]. rewrite Hn in Hc by (unfold edge; congruence). discriminate.
+Qed.
+
+Theorem user_add_edge_trk st u v force top a st' :
+  W_dict st -> W_forest st -> W_trk st -> trk_bounded st -> trk_act (ft st) = true ->
+  user_add_edge st u v force top = Ok a st' ->
+  W_trk st' /\ trk_bounded st' /\
+  (forall m, ~ wconn st u m -> ~ wconn st v m -> trk st' m = trk st m) /\
+  (forall x y, edge st' x y <-> (edge st x y /\ y <> v) \/ (x = u /\ y = v)).
+Proof.
+  intros Hd Hf Ht Hb Cta H. unfold user_add_edge in H.
+  destruct (top_wrap_inv _ _ _ _ _ H) as (s & Hc & Eg & Eb).
+  destruct (uae_trk st u v force a s Hd Hf Ht Hb Cta Hc) as (_ & _ & Wt & Hbs & Fr & Es).
+  split; [now apply (W_trk_same_g s st')|]. split; [now apply (trk_bounded_same s st')|]. split.
+  - intros m Hu Hv. rewrite (same_g_trk _ _ Eg). apply Fr.
+    + intros R. apply Hu. now apply reach_wconn.
+    + intros R. apply Hv. now apply reach_wconn.
+    + intros p Hp R. apply Hv. eapply rst_trans; [apply rst_sym, rst_step; exact Hp|now apply reach_wconn].
+  - intros x y. rewrite (same_g_edge _ _ Eg). apply Es.
+Qed.
+
+(* local => global after a step: in the state after an accepted UserDeleteEdge / UserAddEdge two nodes
+   carry the same track id iff they lie on the same unbranched segment *)
+Theorem user_delete_edge_global st u v a st' :
+  W_dict st -> W_forest st -> W_trk st -> trk_bounded st -> trk_act (ft st) = true ->
+  user_delete_edge_core st u v = Ok a st' ->
+  forall n m, is_node st' n -> is_node st' m -> (trk st' n = trk st' m <-> same_segment st' n m).
+Proof.
+  intros Hd Hf Ht Hb Cta H.
+  destruct (has_edge st u v) eqn:Ee.
+  - destruct (ude_trk st u v Hd Hf Ht Hb Cta Ee) as (a' & s' & Hc' & Wt & _).
+    destruct (ude_core_spec st u v Hd Hf) as [_ Hy]. destruct (Hy Ee) as (a2 & s2 & Hc2 & Hd2 & Hf2 & _).
+    rewrite H in Hc', Hc2. injection Hc' as <- <-. injection Hc2 as _ <-.
+    now apply track_global.
+  - destruct (ude_core_spec st u v Hd Hf) as [Hn _]. rewrite Hn in H by (unfold edge; congruence). discriminate.
+Qed.
+
+Theorem user_add_edge_global st u v force a st' :
+  W_dict st -> W_forest st -> W_trk st -> trk_bounded st -> trk_act (ft st) = true ->
+  user_add_edge_core st u v force = Ok a st' ->
+  forall n m, is_node st' n -> is_node st' m -> (trk st' n = trk st' m <-> same_segment st' n m).
+Proof.
+  intros Hd Hf Ht Hb Cta H.
+  destruct (uae_trk st u v force a st' Hd Hf Ht Hb Cta H) as (Hd' & Hf' & Wt & _).
+  now apply track_global.
 Qed.
